@@ -180,4 +180,85 @@ theorem srcD_hyp_script (sc : List (Ev α)) :
     by simpa [srcD, Stream.Src.of] using src_sden (soft := Err.soft) true (fun _ => rfl) (fun _ => rfl) sc 0 0 0,
     by simp [srcD, Stream.Src.of]⟩
 
+/-! ## machine-level readings: a scripted source with a failing callback / a fatal failure -/
+
+theorem annot_append (p : Nat) (l1 l2 : List α) : annot p (l1 ++ l2) = annot p l1 ++ annot (p + l1.length) l2 := by
+  induction l1 generalizing p with
+  | nil => simp [annot]
+  | cons a l1 ih =>
+    simp only [List.cons_append, annot, ih, List.length_cons]
+    congr 3
+    omega
+
+/-- the fault-free scripted source over the items `l` -/
+theorem items_src_sden (l : List α) :
+    SDen Err.soft Stream.src (fun s : Stream.Src α => s.pulled) (ofList l) (annot 0 l) (.end_ l.length) := by
+  have := src_sden (soft := Err.soft) true (fun _ => rfl) (fun _ => rfl) (l.map Ev.item) 0 0 0
+  rwa [scriptItems_map_item, scriptTerm_map_item, Nat.zero_add] at this
+
+/-- `Map`, source failing for good with `E` after the items `l` (callback total): the images of `l`, then `E` itself -/
+theorem map_fatal_sden (f : α → β) (l : List α) (E : Nat) (rest : List (Ev α)) :
+    SDen Err.soft (Stream.map (fun a => .ok (f a)) Stream.src) (fun st => st.inner.pulled)
+      ⟨Stream.Src.of (fatalAfter l E rest)⟩ ((annot 0 l).map fun p => (f p.1, p.2)) (.fail (.fatal E)) := by
+  have h := map_sden (soft := Err.soft) (fun a => Except.ok (f a)) (by intro a e h; cases h) (fatal_src_sden l E rest)
+  rwa [mapS_ok] at h
+
+theorem mapS_callback_error (f : α → Except Err β) (a : α) (c : Nat) (E : Err) (hfa : f a = .error E)
+    (pre : List (α × Nat)) (hpre : ∀ p ∈ pre, ∃ b, f p.1 = .ok b) (post : List (α × Nat)) (t : Term) :
+    (mapS f (pre ++ (a, c) :: post) t).2 = .fail E ∧ (mapS f (pre ++ (a, c) :: post) t).1.length = pre.length := by
+  induction pre with
+  | nil => simp [mapS, hfa]
+  | cons p pre ih =>
+    obtain ⟨x, k⟩ := p
+    obtain ⟨b, hb⟩ := hpre (x, k) (by simp)
+    have := ih (fun p hp => hpre p (by simp [hp]))
+    simp only [List.cons_append, mapS, hb, List.length_cons]
+    exact ⟨this.1, by rw [this.2]⟩
+
+/-- `Map`, callback failing (hard) with `E` on the item `a` after succeeding on `pre`: the images of `pre`,
+then `E` itself — whatever the source would have delivered afterwards -/
+theorem map_cb_sden (f : α → Except Err β) (hf : ∀ a e, f a = .error e → Err.soft e = false)
+    (pre : List α) (a : α) (post : List α) (E : Err) (hfa : f a = .error E) (hpre : ∀ x ∈ pre, ∃ b, f x = .ok b) :
+    ∃ L, SDen Err.soft (Stream.map f Stream.src) (fun st => st.inner.pulled) ⟨ofList (pre ++ a :: post)⟩ L (.fail E) ∧
+      L.length = pre.length := by
+  have h := map_sden (soft := Err.soft) f hf (items_src_sden (pre ++ a :: post))
+  rw [annot_append] at h
+  simp only [annot] at h
+  have hk := mapS_callback_error f a (0 + pre.length + 1) E hfa (annot 0 pre)
+    (fun p hp => hpre p.1 (by have := List.mem_map_of_mem (f := Prod.fst) hp; rwa [annot_fst] at this))
+    (annot (0 + pre.length + 1) post) (.end_ (pre ++ a :: post).length)
+  refine ⟨_, by rw [← hk.1]; exact h, ?_⟩
+  rw [hk.2, ← List.length_map (f := Prod.fst), annot_fst]
+
+/-- `Filter`, callback failing (hard) with `E` on `a` after succeeding on `pre`: the kept ones of `pre`, then `E` itself -/
+theorem filter_cb_sden (keep : α → Except Err Bool) (hf : ∀ a e, keep a = .error e → Err.soft e = false)
+    (pre : List α) (a : α) (post : List α) (E : Err) (hfa : keep a = .error E) (hpre : ∀ x ∈ pre, ∃ b, keep x = .ok b) :
+    ∃ L, SDen Err.soft (Stream.filter keep Stream.src) (fun st => st.inner.pulled) ⟨ofList (pre ++ a :: post)⟩ L (.fail E) ∧
+      L.map Prod.fst = pre.filter (keptBy keep) := by
+  have h := filter_sden (soft := Err.soft) keep hf (items_src_sden (pre ++ a :: post))
+  rw [annot_append] at h
+  simp only [annot] at h
+  have hk := filterS_callback_error keep a (0 + pre.length + 1) E hfa (annot 0 pre)
+    (fun p hp => hpre p.1 (by have := List.mem_map_of_mem (f := Prod.fst) hp; rwa [annot_fst] at this))
+    (annot (0 + pre.length + 1) post) (.end_ (pre ++ a :: post).length)
+  refine ⟨_, by rw [← hk.1]; exact h, ?_⟩
+  rw [hk.2]
+  have : ∀ (q : Nat) (l : List α), ((annot q l).filter fun p => keptBy keep p.1).map Prod.fst = l.filter (keptBy keep) := by
+    intro q l
+    induction l generalizing q with
+    | nil => rfl
+    | cons x l ih => simp only [annot, List.filter_cons]; split <;> simp [ih]
+  exact this 0 pre
+
+/-- `While`, callback failing (hard) with `E` on `a` after passing `pre`: all of `pre`, then `E` itself — not the end -/
+theorem while_cb_sden (f : α → Except Err Bool) (hf : ∀ a e, f a = .error e → Err.soft e = false)
+    (pre : List α) (a : α) (post : List α) (E : Err) (hfa : f a = .error E) (hpre : ∀ x ∈ pre, f x = .ok true) :
+    SDen Err.soft (Stream.while_ f Stream.src) (fun st => st.inner.pulled) ⟨ofList (pre ++ a :: post), none, false⟩
+      (annot 0 pre) (.fail E) := by
+  have h := while_sden (soft := Err.soft) f hf (items_src_sden (pre ++ a :: post))
+  rw [annot_append] at h
+  simp only [annot] at h
+  rwa [whileS_callback_error f a _ E hfa (annot 0 pre)
+    (fun p hp => hpre p.1 (by have := List.mem_map_of_mem (f := Prod.fst) hp; rwa [annot_fst] at this))] at h
+
 end Juniper.Proofs.StreamDen
